@@ -154,4 +154,41 @@ def decTok : Sexp → Option Tok
 
 def encLine (l : Line) : Sexp := .list [ofNat l.indent, .list (l.toks.map encTok)]
 
+def decLine : Sexp → Option Line
+  | .list [n, .list ts] => do pure ⟨← n.toNat?, ← ts.mapM decTok⟩
+  | _ => none
+
+def optE (o : Option PyExpr) : Sexp := encO o
+
+def encAlias (a : Str × Option Str) : Sexp := .list [.str a.1, optS a.2]
+
+def encArgs (po ar : List PyExpr) (va : Option PyExpr) (ko : List PyExpr) (ka : Option PyExpr) : Sexp :=
+  .list [.atom "Args", .list (po.map encE), .list (ar.map encE), encO va, .list (ko.map encE), encO ka]
+
+partial def encS : PyStmt → Sexp
+  | .expr e => .list [.atom "Expr", encE e]
+  | .assign ts v => .list [.atom "Assign", .list (ts.map encE), encE v]
+  | .augAssign t op v => .list [.atom "AugAssign", encE t, .str op, encE v]
+  | .return_ v => .list [.atom "Return", encO v]
+  | .delete ts => .list [.atom "Delete", .list (ts.map encE)]
+  | .pass_ => .list [.atom "Pass"]
+  | .break_ => .list [.atom "Break"]
+  | .continue_ => .list [.atom "Continue"]
+  | .assert_ t m => .list [.atom "Assert", encE t, encO m]
+  | .raise_ e c => .list [.atom "Raise", encO e, encO c]
+  | .global_ ns => .list [.atom "Global", .list (ns.map .str)]
+  | .import_ ns => .list [.atom "Import", .list (ns.map encAlias)]
+  | .importFrom m ns lvl => .list [.atom "ImportFrom", optS m, .list (ns.map encAlias), ofNat lvl]
+  | .if_ t b o => .list [.atom "If", encE t, .list (b.map encS), .list (o.map encS)]
+  | .while_ t b o => .list [.atom "While", encE t, .list (b.map encS), .list (o.map encS)]
+  | .for_ t it b o => .list [.atom "For", encE t, encE it, .list (b.map encS), .list (o.map encS)]
+  | .with_ items b => .list [.atom "With", .list (items.map fun (c, v) => .list [encE c, encO v]), .list (b.map encS)]
+  | .try_ b hs o f => .list [.atom "Try", .list (b.map encS), .list (hs.map encS), .list (o.map encS), .list (f.map encS)]
+  | .handler t n b => .list [.atom "handler", encO t, optS n, .list (b.map encS)]
+  | .functionDef name po ar va ko ka body decos ret tp =>
+      .list [.atom "FunctionDef", .str name, encArgs po ar va ko ka, .list (body.map encS), .list (decos.map encE), encO ret, ofBool tp]
+  | .classDef name bases kws body decos tp =>
+      .list [.atom "ClassDef", .str name, .list (bases.map encE), .list (kws.map encE), .list (body.map encS), .list (decos.map encE), ofBool tp]
+  | .unsupported k => .list [.atom "UnsupportedStmt", .str k]
+
 end Driver.PyWire
